@@ -20,6 +20,10 @@ class Refused(Exception):
     pass
 
 
+class Raised(Exception):
+    """The interpreted fragment executed a ``raise`` statement (payload: the normalised exception expression)."""
+
+
 SAFE_BUILTINS = {
     "len": len, "range": range, "enumerate": enumerate, "str": str, "int": int, "list": list, "tuple": tuple, "sum": sum, "max": max, "min": min,
     "dedent": textwrap.dedent, "zip": zip, "sorted": sorted, "repr": repr, "bool": bool, "abs": abs, "reversed": reversed,
@@ -27,9 +31,9 @@ SAFE_BUILTINS = {
 SAFE_METHODS = {
     str: {"join", "strip", "lstrip", "rstrip", "format", "startswith", "endswith", "split", "replace", "upper", "lower", "partition"},
     int: {"bit_length"},
-    list: {"index", "count", "copy"},
+    list: {"index", "count", "copy", "append", "extend", "insert"},
     tuple: {"index", "count"},
-    dict: {"get", "keys", "values", "items"},
+    dict: {"get", "keys", "values", "items", "setdefault", "update"},
 }
 _BIN = {
     ast.Add: lambda a, b: a + b, ast.Sub: lambda a, b: a - b, ast.Mult: lambda a, b: a * b, ast.FloorDiv: lambda a, b: a // b,
@@ -210,6 +214,10 @@ class Evaluator:
                 return f.fn(*args, **kwargs)
             if isinstance(f, tuple) and f and f[0] == "symmethod":
                 m = f[1].methods[f[2]]
+                if isinstance(m, UserFunc):
+                    return self.call_user(m, [f[1], *args], kwargs)
+                if isinstance(m, Host):
+                    return m.fn(*args, **kwargs)
                 return m(*args, **kwargs) if callable(m) else m
             if f in SAFE_BUILTINS.values() or (hasattr(f, "__self__") and type(f.__self__) in SAFE_METHODS and f.__name__ in SAFE_METHODS[type(f.__self__)]):
                 r = f(*args, **kwargs)
@@ -246,6 +254,16 @@ class Evaluator:
     def _bind(self, target: ast.AST, value: Any, env: dict[str, Any]) -> None:
         if isinstance(target, ast.Name):
             env[target.id] = value
+        elif isinstance(target, ast.Attribute):
+            box = self.ev(target.value, env)
+            if not isinstance(box, Sym):
+                raise Refused("attribute store on a non-symbolic object")
+            box.attrs[target.attr] = value
+        elif isinstance(target, ast.Subscript) and not isinstance(target.slice, ast.Slice):
+            box = self.ev(target.value, env)
+            if not isinstance(box, (list, dict)):
+                raise Refused("subscript store on a non-container")
+            box[self.ev(target.slice, env)] = value
         elif isinstance(target, (ast.Tuple, ast.List)):
             vals = list(value)
             if len(vals) != len(target.elts):
@@ -272,6 +290,11 @@ class Evaluator:
             elif isinstance(st, ast.AugAssign) and isinstance(st.target, ast.Name):
                 cur = env.get(st.target.id)
                 env[st.target.id] = _BIN[type(st.op)](cur, self.ev(st.value, env))
+            elif isinstance(st, ast.AugAssign) and isinstance(st.target, (ast.Attribute, ast.Subscript)) and type(st.op) in _BIN:
+                cur = self.ev(st.target, env)
+                self._bind(st.target, _BIN[type(st.op)](cur, self.ev(st.value, env)), env)
+            elif isinstance(st, ast.Raise):
+                raise Raised(norm(st.exc) if st.exc is not None else "")
             elif isinstance(st, ast.If):
                 r = self.run(st.body if self.ev(st.test, env) else st.orelse, env)
                 if r[0] in ("return", "break", "continue"):
@@ -293,6 +316,10 @@ class Evaluator:
                 return ("return", self.ev(st.value, env) if st.value is not None else None)
             elif isinstance(st, ast.Pass):
                 continue
+            elif isinstance(st, ast.Expr) and isinstance(st.value, ast.Call):
+                self.ev(st.value, env)  # only whitelisted callables get through: builders of evaluator-local lists / dicts
+            elif isinstance(st, ast.Assign) and False:
+                pass
             else:
                 raise Refused(f"statement {type(st).__name__}")
         return ("fall", None)
